@@ -91,7 +91,7 @@ Exact(r) ==
             THEN M \subseteq ExactMask(c, st) /\ \A t \in M : ForcedTok(c, st, t)
             ELSE M = ExactMask(c, st)
       [] r.ev = "Acc" /\ r.ok = 1 /\ ~Stopped(r.e) -> (r.v = 1) = IsAcc(st)
-      [] r.ev = "Consume" /\ ~Stopped(r.e) /\ r.t < s.n -> (r.ok = 1) = Allowed(c, st, r.t)
+      [] r.ev = "Consume" /\ ~Stopped(r.e) /\ r.t < s.n /\ ~(r.ok = 0 /\ r.cls = "limit") -> (r.ok = 1) = Allowed(c, st, r.t)
       [] OTHER -> TRUE
 
 (* tokenisation of text vs marker forms *)
